@@ -265,3 +265,79 @@ def run(ctx, prog, res):
             for inst in rr["instances"]:
                 r5.ok(inst)
     r5.floor(5)
+
+    # R6 -------------------------------------------------------------------------------------
+    r6 = res.rule("C04.R6", "8- and 16-bit additions and multiplications of the evaluation and normalization code cannot overflow (a trap in debug builds, a wrapped value in release builds - a wrapped year or week sends the iterator backwards into its progress assertion): for every such checked operation outside ExtendedTime (C19.R2) an upper bound of both operands is computed from the operand expressions (constants, `x % c`, enum discriminants, casts, the reviewed value ranges of AST newtypes) and the result must fit the type")
+    import terms
+    TYMAX = {"u8": 255, "u16": 65535, "i8": 127, "i16": 32767}
+    # value ranges of AST fields / receivers, each with the reason it holds
+    RANGES = {
+        ("<opening_hours_syntax::rules::day::Year as opening_hours_syntax::normalize::frame::Framable>::succ", "p1.0"): (9999, "years are 1900..=9999 (token language of `year`, C05.R3; FRAME_END)"),
+        ("<opening_hours_syntax::rules::day::WeekNum as opening_hours_syntax::normalize::frame::Framable>::pred", "p1"): (53, "week numbers are 1..=53 (token language of `weeknum`, C05.R3; FRAME_END)"),
+        ("<opening_hours_syntax::rules::day::WeekNum as opening_hours_syntax::normalize::frame::Framable>::succ", "p1"): (53, "week numbers are 1..=53"),
+        ("opening_hours_syntax::parser::build_date_to", "p2@Fixed.year@Some.0"): (9999, "the start date of a range was parsed through the `year` token language, 1900..=9999 (C05.R3)"),
+    }
+
+    def ub(fn, node, ty):
+        """Upper bound of a non-negative integer term, None when unknown."""
+        k = node[0]
+        if k == "int":
+            return node[1]
+        if k == "cast":
+            inner = ub(fn, node[1], node[2])
+            m = TYMAX.get(node[2], terms.INT_RANGE.get(node[2], (0, None))[1])
+            return m if inner is None else (min(inner, m) if m is not None else inner)
+        if k == "proj" and node[2] in (0, "0"):
+            return ub(fn, node[1], ty)
+        if k == "app":
+            nm = node[1].split("::")[-1]
+            if nm == "Rem" and len(node[2]) == 2 and node[2][1][0] == "int" and node[2][1][1] > 0:
+                return node[2][1][1] - 1
+            if nm in ("Add", "Mul") and len(node[2]) == 2:
+                a, b = ub(fn, node[2][0], ty), ub(fn, node[2][1], ty)
+                if a is None or b is None:
+                    return None
+                return a + b if nm == "Add" else a * b
+            if nm == "discr" and len(node[2]) == 1 and node[2][0][0] == "var" and re.fullmatch(r"p\d+", node[2][0][1]):
+                lty = fn.locals[int(node[2][0][1][1:])]["ty"].replace("&", "").strip()
+                a = prog.adts.get(lty)
+                if a and a["variants"]:
+                    return max(a["discrs"] or range(len(a["variants"])))
+            return None
+        if k == "var":
+            r = RANGES.get((fn.id, node[1]))
+            if r:
+                return r[0]
+        return None
+
+    n6 = 0
+    for fid, fn in sorted(prog.fns.items()):
+        if fn.crate not in lib.WS_LIBS or "extended_time::ExtendedTime" in fid:
+            continue
+        for bb, b in fn.live_blocks():
+            t = b["term"]
+            if t["k"] != "assert" or str(t.get("msg")) not in ("Overflow(Add)", "Overflow(Mul)"):
+                continue
+            tys = []
+            for o in t["ops"]:
+                pl = lib.operand_place(o)
+                tys.append(fn.locals[pl["l"]]["ty"] if pl is not None and not pl["p"] else o.get("ty"))
+            ty = next((x for x in tys if x in TYMAX), None)
+            if ty is None:
+                continue
+            n6 += 1
+            shs = [flow.shape(fn, o, depth=6) for o in t["ops"]]
+            try:
+                bounds = [ub(fn, terms.parse(sh), ty) for sh in shs]
+            except terms.TermError:
+                bounds = [None, None]
+            if None in bounds:
+                total = None
+            else:
+                total = bounds[0] + bounds[1] if "Add" in t["msg"] else bounds[0] * bounds[1]
+            op = "+" if "Add" in t["msg"] else "*"
+            r6.check(total is not None and total <= TYMAX[ty], {"fn": fid.split("::")[-1], "type": ty, "operation": "%s %s %s" % (shs[0][:60], op, shs[1][:60]), "operand_bounds": bounds, "result_at_most": total},
+                     "C04.R6:%s:%s:%s" % (fn.module, fid.split("::")[-1].split("{")[0] or fid.split("::")[-2], op),
+                     "%s computes `%s %s %s` in %s and %s: with the values the grammar admits (a step or a number up to %d) the result does not fit - a trap in debug builds, a wrapped value in release builds" % (
+                         fid, shs[0][:80], op, shs[1][:80], ty, "no bound is known for an operand" if total is None else "the result can reach %d" % total, TYMAX[ty]), lib.where_of(fn, t))
+    r6.floor(9)
